@@ -24,6 +24,74 @@ def dump_graph(ctx, module, cfg, timeout=600, tag=None, workers=None):
     return r, g
 
 
+def _sha(*paths):
+    import hashlib
+    h = hashlib.sha1()
+    for p in paths:
+        h.update(open(p, "rb").read())
+        h.update(b"\0")
+    return h.hexdigest()[:16]
+
+
+def schedules(ctx, module, cfg, project, timeout=1200, extra_key="", max_len=600):
+    """Transition-cover schedules of tla/<module>.tla under tla/<cfg>.
+
+    Runs TLC exhaustively (all invariants of the cfg are checked) with the labelled state graph
+    dumped, computes edge-covering complete paths and projects every step with
+    `project(action, args, post_state) -> dict`.  Returns (info, behaviours_steps) where
+    behaviours_steps is a list of step lists.  The result only depends on the spec, the cfg and
+    this code, so it is cached under work/cache (like ctx.tlc(cache=True))."""
+    import inspect
+    key = _sha(os.path.join(verif.TLA, module + ".tla"), os.path.join(verif.TLA, cfg),
+               os.path.abspath(pathcover.__file__), os.path.abspath(__file__))
+    import hashlib
+    key += hashlib.sha1((inspect.getsource(project) + extra_key).encode()).hexdigest()[:8]
+    cdir = os.path.join(verif.WORK, "cache")
+    cpath = os.path.join(cdir, "sched-%s-%s.json" % (cfg.replace(".cfg", ""), key))
+    if os.path.exists(cpath) and not os.environ.get("VERIF_NO_CACHE"):
+        try:
+            d = json.load(open(cpath))
+            info, beh = d["info"], d["beh"]
+            ctx.log("schedules %s/%s: cached (%d states, %d paths)" % (module, cfg, info["states"], len(beh)))
+            ctx.states += info["states"]
+            ctx.transitions += info["generated"]
+            ctx.tlc_runs.append({"module": module, "cfg": cfg, "states": info["states"], "generated": info["generated"],
+                                 "depth": info["depth"], "wall_s": info["wall_s"], "simulate": 0, "cached": True})
+            ctx.cov.setdefault("coverage_actions", {}).update(info["actions"])
+            return info, beh
+        except Exception:
+            pass
+    r, g = dump_graph(ctx, module, cfg, timeout=timeout)
+    paths = cover(ctx, g, max_len=max_len)
+    beh = [[project(a, args, s) for a, args, s in g.steps(p)] for p in paths]
+    actions = {}
+    for (_, _, a, _) in g.edges:
+        actions[a] = actions.get(a, 0) + 1
+    info = {"states": g.nstates, "transitions": len(g.edges), "cover_paths": len(paths), "generated": r.generated,
+            "depth": r.depth, "wall_s": round(r.wall_s, 2), "actions": actions,
+            "init": g.state(g.init[0])}
+    ctx.cov.setdefault("coverage_actions", {}).update(actions)
+    os.makedirs(cdir, exist_ok=True)
+    tmp = cpath + ".tmp%d" % os.getpid()
+    json.dump({"info": info, "beh": beh}, open(tmp, "w"), separators=(",", ":"))
+    os.replace(tmp, cpath)
+    return info, beh
+
+
+def require_graph_actions(info, actions):
+    """Vacuity guard on a schedule graph: every listed action labels at least one transition."""
+    missing = [a for a in actions if info["actions"].get(a, 0) == 0]
+    if missing:
+        raise verif.ToolError("vacuous schedule graph: actions never taken: %s" % ", ".join(missing))
+
+
+def replay(ctx, vh, sub, beh, tag=None, opts=None, timeout=1800):
+    res = ctx.run_engine(vh, sub, beh, tag=tag or sub, opts=opts, timeout=timeout)
+    if len(res) != len(beh):
+        raise verif.ToolError("engine returned %d results for %d schedules" % (len(res), len(beh)))
+    return res
+
+
 def cover(ctx, g, max_len=600):
     """Edge-covering complete paths + the measured coverage."""
     paths = pathcover.cover_paths(g, max_len=max_len)
